@@ -119,7 +119,7 @@ func DrawStmt(t *rapid.T, args []val.KV, want bool, label string) (pol.Stmt, boo
 	// occasionally the statement sits under n nested nots (n around the powers of two up to 256): its truth is
 	// the inner truth flipped n times, however deep it stands
 	nots := 0
-	if rapid.IntRange(0, 39).Draw(t, label+"_deepnot") == 0 {
+	if rapid.IntRange(0, 39).Draw(t, label+"_deepnot") == 17 {
 		nots = rapid.SampledFrom([]int{1, 2, 3, 31, 32, 33, 63, 64, 65, 66, 67, 100, 101, 127, 128, 129, 130, 255, 256, 257}).Draw(t, label+"_nots")
 	}
 	inner := want
